@@ -208,9 +208,9 @@ func pathSortView(ns []*MNode) {
 	}
 }
 
-// mutateView applies k random edits to a view (in place): touch, resize, chmod, chown, delete
+// mutateViewC02 applies k random edits to a view (in place): touch, resize, chmod, chown, delete
 // subtree, add entry, type swaps, link target change, device renumbering.
-func mutateView(r *Rng, roots *[]*MNode, k int) {
+func mutateViewC02(r *Rng, roots *[]*MNode, k int) {
 	for i := 0; i < k; i++ {
 		var nodes []*MNode
 		parents := map[*MNode]*[]*MNode{}
@@ -367,7 +367,7 @@ func genC02(g *Gen) {
 		cls := "random-edited"
 		if r.Chance(80) {
 			vb = cloneView(va)
-			mutateView(r, &vb, 1+r.Intn(8))
+			mutateViewC02(r, &vb, 1+r.Intn(8))
 		} else {
 			vb = GenView(r, o)
 			cls = "random-unrelated"
